@@ -40,7 +40,8 @@ RULE = ('Exhaustive product of: platform {default,P} x package default environme
         'reference their own key without importing it and values reached through a chain of >=2 references inside the '
         'environment are only leak-checked; selecting "environment" by name when no platform defines it may either '
         'fail or give the launch environment. Failing cases that have exactly the shape of a described defect (a '
-        'selector matches) are recorded once per (class, document) and otherwise only counted.')
+        'selector matches) are recorded at most twice per document configuration (distinct failure kinds) and otherwise '
+        'only counted.')
 ASSUMPTIONS = [
     'system variables are an input: Part A passes them as system_vars, Part B reads what the runtime chose from '
     'experimentGraph.configuration.system_vars (INSTANCE_DIR, FLOW_EXPERIMENT_NAME, FLOW_RUN_ID)',
@@ -203,14 +204,14 @@ def judge_one(col, part, cfg, comp, thorough, host, hosting, primitive=True):
                 'launch': launch, 'default_layer': O.lookup(envs, 'default', name) if comp['kind'] != 'none' else None,
                 'P_layer': O.lookup(envs, G.P, name) if comp['kind'] != 'none' else None}
     # The runner keeps at most Collector.MAX_FAIL failures. Failures that have exactly the shape of an already
-    # described defect (a selector below matches) are recorded once per (selector, class, document); the others of
+    # described defect (a selector below matches) are recorded once per (selector, failure kinds, document), at most two per document; the others of
     # the same document are only counted. Failures no selector matches are always recorded.
     f = {'case': case, 'why': why_full, 'observed': observed, 'sig': sig}
     for sel_name, sel in sorted(KNOWN_SELECTORS.items()):
         if sel(f):
             seen = col.__dict__.setdefault('_c17_seen', set())
-            key = (sel_name, sig, part, repr(sorted(cfg.items())), primitive)
-            if key in seen:
+            key = (sel_name, kinds, part, repr(sorted(cfg.items())), primitive)
+            if key in seen or len(seen) >= 2:
                 col.count('failures_of_described_shape_not_recorded_individually')
                 return False
             seen.add(key)
